@@ -26,6 +26,8 @@ import (
 //	8  SubgraphRemove(G, Nodes, Edges)
 //	9  DotString(S)                        strings are byte lists
 //	10 Dot{Name, Label, NodeAttrs, EdgeAttrs}.Sprint(G); HasL/HasN/HasE = the func is non-nil
+//	11 a history Steps (operations 2-8, 10; their G is ignored) on ONE graph object built from G
+//	   (Bi: the object is MakeBiGraph(G), built once); no copy is made between the calls
 type c18Attr struct {
 	N []int `json:"n"`           // attribute name
 	K int   `json:"k"`           // 0 string S, 1 int I, 2 DotLiteral S, 3 bool (unsupported: panics), 4 uint I
@@ -50,6 +52,18 @@ type c18Case struct {
 	Labels [][]int       `json:"labels,omitempty"`
 	NAttrs [][]c18Attr   `json:"nattrs,omitempty"`
 	EAttrs [][][]c18Attr `json:"eattrs,omitempty"`
+	Bi     bool          `json:"bi,omitempty"`
+	Steps  []c18Case     `json:"steps,omitempty"`
+
+	obj graph.Graph // op 11: the shared object every step works on (nil: a graph of its own, IntGraph(G))
+}
+
+// the graph object a call receives
+func (c *c18Case) graph() graph.Graph {
+	if c.obj != nil {
+		return c.obj
+	}
+	return graph.IntGraph(c.G)
 }
 
 const c18MaxID = 1 << 22
@@ -80,8 +94,58 @@ func c18Run(raw []byte) (*Line, error) {
 		return c18RunDotString(&c, l)
 	case 10:
 		return c18RunSprint(&c, l)
+	case 11:
+		return c18RunHist(&c, l)
 	}
 	return nil, fmt.Errorf("bad op %d", c.Op)
+}
+
+// ---------------------------------------------------------------- op 11: a history on one graph object
+func c18RunHist(c *c18Case, l *Line) (*Line, error) {
+	if err := c18ValidGraph(c.G); err != nil {
+		return nil, err
+	}
+	if len(c.Steps) == 0 || len(c.Steps) > 64 {
+		return nil, fmt.Errorf("a history has 1..64 steps")
+	}
+	var obj graph.Graph = graph.IntGraph(c.G)
+	if c.Bi {
+		obj = graph.MakeBiGraph(obj)
+	}
+	l.I(len(c.Steps))
+	for i := range c.Steps {
+		st := c.Steps[i]
+		st.G = c.G // the very same adjacency slices: what one call leaves behind is what the next call receives
+		st.obj = obj
+		st.Steps = nil
+		sub := &Line{}
+		sub.I(st.Op)
+		var err error
+		switch st.Op {
+		case 2:
+			_, err = c18RunTrav(&st, sub)
+		case 3:
+			_, err = c18RunSCC(&st, sub)
+		case 4:
+			_, err = c18RunBi(&st, sub)
+		case 5:
+			_, err = c18RunEqual(&st, sub)
+		case 6:
+			_, err = c18RunSimplify(&st, sub)
+		case 7, 8:
+			_, err = c18RunSub(&st, sub)
+		case 10:
+			_, err = c18RunSprint(&st, sub)
+		default:
+			err = fmt.Errorf("operation %d cannot be a step of a history", st.Op)
+		}
+		if err != nil {
+			return nil, err
+		}
+		l.I(len(sub.toks))
+		l.toks = append(l.toks, sub.toks...)
+	}
+	return l, nil
 }
 
 // ---------------------------------------------------------------- op 1: NodeMarks
@@ -389,7 +453,7 @@ func c18RunTrav(c *c18Case, l *Line) (*Line, error) {
 		}
 	}
 	orig := c18Copy(c.G)
-	g := graph.IntGraph(c.G)
+	g := c.graph()
 	l.c18Graph(orig)
 	l.I(len(c.Roots))
 	for _, root := range c.Roots {
@@ -581,7 +645,12 @@ func c18GenTrav(tier string, rng *rand.Rand, emit func(interface{})) {
 			g := c18MaskGraph(n, mask)
 			emit(c18Case{Op: 2, G: g, Roots: c18AllRoots(n)})
 			if n < 4 || rng.Intn(4) == 0 || thorough {
-				emit(c18Case{Op: 2, G: c18Variant(rng, g), Roots: c18AllRoots(n)})
+				v := c18Variant(rng, g)
+				// quick: one in five of the sampled 4-node variants is left out (the variant is still drawn, so the
+				// random stream is unchanged); the histories of c18GenHist run 1200 such variants from every root
+				if n < 4 || thorough || mask%5 != 0 {
+					emit(c18Case{Op: 2, G: v, Roots: c18AllRoots(n)})
+				}
 			}
 		}
 	}
@@ -660,7 +729,7 @@ func c18RunSCC(c *c18Case, l *Line) (*Line, error) {
 		return nil, fmt.Errorf("bad flags")
 	}
 	orig := c18Copy(c.G)
-	g := graph.IntGraph(c.G)
+	g := c.graph()
 	l.c18Graph(orig).I(c.Flags)
 	var comps, outs [][]int
 	var cof []int
@@ -772,7 +841,7 @@ func c18RunBi(c *c18Case, l *Line) (*Line, error) {
 		return nil, err
 	}
 	orig := c18Copy(c.G)
-	g := graph.IntGraph(c.G)
+	g := c.graph()
 	l.c18Graph(orig)
 	var ins, bout [][]int
 	idem := true
@@ -817,8 +886,8 @@ func c18RunEqual(c *c18Case, l *Line) (*Line, error) {
 	l.c18Graph(o1).c18Graph(o2)
 	res, res21 := false, false
 	pan, _ := catch(func() {
-		res = graph.Equal(graph.IntGraph(c.G), graph.IntGraph(c.G2))
-		res21 = graph.Equal(graph.IntGraph(c.G2), graph.IntGraph(c.G))
+		res = graph.Equal(c.graph(), graph.IntGraph(c.G2))
+		res21 = graph.Equal(graph.IntGraph(c.G2), c.graph())
 	})
 	if pan {
 		l.I(2).I(0).I(0)
@@ -873,7 +942,7 @@ func c18RunSimplify(c *c18Case, l *Line) (*Line, error) {
 	var rg [][]int
 	var rw [][]float64
 	pan, _ := catch(func() {
-		var in graph.Graph = graph.IntGraph(c.G)
+		in := c.graph()
 		if weighted {
 			in = c18Weighted{graph.IntGraph(c.G), w}
 		}
@@ -945,9 +1014,9 @@ func c18RunSub(c *c18Case, l *Line) (*Line, error) {
 	pan, _ := catch(func() {
 		var s graph.Subgraph
 		if c.Op == 7 {
-			s = graph.SubgraphKeep(graph.IntGraph(c.G), nodes, edges)
+			s = graph.SubgraphKeep(c.graph(), nodes, edges)
 		} else {
-			s = graph.SubgraphRemove(graph.IntGraph(c.G), nodes, edges)
+			s = graph.SubgraphRemove(c.graph(), nodes, edges)
 		}
 		nm := s.NodeMap(func(node int) interface{} { return node })
 		em := s.EdgeMap(func(node, edge int) interface{} { return [2]int{node, edge} })
@@ -1480,7 +1549,7 @@ func c18RunSprint(c *c18Case, l *Line) (*Line, error) {
 		l.I(0)
 	}
 	var out string
-	pan, _ := catch(func() { out = d.Sprint(graph.IntGraph(c.G)) })
+	pan, _ := catch(func() { out = d.Sprint(c.graph()) })
 	if pan {
 		l.I(2).I(0)
 	} else {
@@ -1611,7 +1680,12 @@ func c18GenDot(tier string, rng *rand.Rand, emit func(interface{})) {
 				g = c18Variant(rng, g)
 			}
 		case k%50 == 0:
-			g = c18Structured(rng, rng.Intn(6), []int{9, 10, 11, 99, 101, 1001}[rng.Intn(6)], rng.Intn(3))
+			kind := rng.Intn(6)
+			sz := []int{9, 10, 11, 99, 101, 1001}[rng.Intn(6)]
+			if wide && sz > 101 { // the model's printer is quadratic in the output: no further 1001-node graphs
+				sz = 101
+			}
+			g = c18Structured(rng, kind, sz, rng.Intn(3))
 		default:
 			g = c18RandGraph(rng, 1+rng.Intn(12))
 		}
@@ -1860,6 +1934,149 @@ func c18GenExtra(tier string, rng *rand.Rand, emit func(interface{})) {
 	}
 }
 
+// ---------------------------------------------------------------- op 11: histories on one graph object
+// every algorithm in turn on the SAME object, the traversals again after each of them: a call that returns the right
+// answer but leaves the adjacency lists changed (sorted, filtered or compacted in place) is seen by the argument
+// comparison of that step and by the results of the later steps
+func c18HistCase(rng *rand.Rand, g [][]int, bi bool, small bool) c18Case {
+	n := len(g)
+	roots := func() []int {
+		if n == 0 {
+			return []int{0}
+		}
+		var r []int
+		if n <= 4 {
+			r = c18AllRoots(n)
+		} else if n > 1000 {
+			r = c18Roots(rng, n, 1)
+		} else {
+			r = c18Roots(rng, n, 3)
+		}
+		return append(r, r[0]) // the first root once more
+	}
+	trav := func() c18Case { return c18Case{Op: 2, Roots: roots()} }
+	keep := func() c18Case {
+		in := map[int]bool{}
+		nodes := []int{}
+		for i := 0; i < n; i++ {
+			if rng.Intn(3) > 0 {
+				nodes = append(nodes, i)
+				in[i] = true
+			}
+		}
+		rng.Shuffle(len(nodes), func(x, y int) { nodes[x], nodes[y] = nodes[y], nodes[x] })
+		es := [][2]int{}
+		for i := range g {
+			for j, t := range g[i] {
+				if in[i] && in[t] && rng.Intn(4) > 0 {
+					es = append(es, [2]int{i, j})
+				}
+			}
+		}
+		rng.Shuffle(len(es), func(x, y int) { es[x], es[y] = es[y], es[x] })
+		return c18Case{Op: 7, Nodes: nodes, Edges: es}
+	}
+	remove := func() c18Case {
+		rm := []int{}
+		rme := [][2]int{}
+		for i := range g {
+			if rng.Intn(5) == 0 {
+				rm = append(rm, i)
+			}
+			for j := range g[i] {
+				if rng.Intn(4) == 0 {
+					rme = append(rme, [2]int{i, j})
+				}
+			}
+		}
+		rng.Shuffle(len(rm), func(x, y int) { rm[x], rm[y] = rm[y], rm[x] })
+		return c18Case{Op: 8, Nodes: rm, Edges: rme}
+	}
+	equal := func() c18Case {
+		h := c18Copy(g)
+		for i := range h {
+			a := h[i]
+			rng.Shuffle(len(a), func(x, y int) { a[x], a[y] = a[y], a[x] }) // not identical: Equal has to sort
+		}
+		if n > 0 && rng.Intn(3) == 0 {
+			i := rng.Intn(n)
+			h[i] = append(h[i], rng.Intn(n))
+		}
+		return c18Case{Op: 5, G2: h}
+	}
+	steps := []c18Case{trav(), {Op: 3, Flags: 3}, trav()}
+	mid := []c18Case{keep(), remove(), {Op: 3, Flags: rng.Intn(3)}, {Op: 4}, equal(), {Op: 6}}
+	if n > 3000 { // keep the line of a large graph within a few 10^5 integers
+		mid = []c18Case{keep(), remove(), equal()}
+	}
+	if small {
+		d := c18Case{Op: 10}
+		if rng.Intn(2) == 0 {
+			d.HasL = true
+			d.Labels = make([][]int, n)
+			for i := range d.Labels {
+				d.Labels[i] = []int{'v', '0' + i%10}
+			}
+		}
+		mid = append(mid, d)
+	}
+	rng.Shuffle(len(mid), func(x, y int) { mid[x], mid[y] = mid[y], mid[x] })
+	for k, m := range mid {
+		steps = append(steps, m)
+		if bi && m.Op != 4 {
+			steps = append(steps, c18Case{Op: 4}) // In of the BiGraph object after the call
+		}
+		if k%2 == 1 || (!small && n <= 3000) {
+			steps = append(steps, trav())
+		}
+	}
+	steps = append(steps, c18Case{Op: 3, Flags: 3}, trav())
+	return c18Case{Op: 11, G: g, Bi: bi, Steps: steps}
+}
+
+func c18GenHist(tier string, rng *rand.Rand, emit func(interface{})) {
+	scale := 1
+	if tier == "thorough" {
+		scale = 12
+	}
+	k := 0
+	bi := func() bool { k++; return k%3 == 0 }
+	for n := 0; n <= 3; n++ {
+		for mask := uint64(0); mask < 1<<uint(n*n); mask++ {
+			g := c18MaskGraph(n, mask)
+			if mask%2 == 1 {
+				g = c18Variant(rng, g)
+			}
+			emit(c18HistCase(rng, g, bi(), true))
+		}
+	}
+	for it := 0; it < 1200*scale; it++ {
+		g := c18MaskGraph(4, uint64(rng.Intn(1<<16)))
+		if it%2 == 0 {
+			g = c18Variant(rng, g)
+		}
+		emit(c18HistCase(rng, g, bi(), true))
+	}
+	for it := 0; it < 400*scale; it++ {
+		n := 1 + rng.Intn(60)
+		if rng.Intn(3) == 0 {
+			n = 1 + rng.Intn(9)
+		}
+		emit(c18HistCase(rng, c18RandGraph(rng, n), bi(), n <= 12))
+	}
+	for _, n := range []int{1100, 2049, 4200} {
+		for kind := 0; kind < 7; kind++ {
+			var g [][]int
+			if kind < 6 {
+				g = c18Structured(rng, kind, n, rng.Intn(3))
+			} else {
+				g = c18Fan(rng, n, rng.Intn(3))
+			}
+			emit(c18HistCase(rng, c18Variant(rng, g), bi(), false))
+		}
+	}
+}
+
 func c18Gen(tier string, rng *rand.Rand, emit func(interface{})) {
 	// debugging aid for mutation experiments only: VERIF_C18_OPS=1,6 runs just the cases of the listed operations
 	// (every case is still generated, so the random stream and the selected cases are those of the full run)
@@ -1883,6 +2100,7 @@ func c18Gen(tier string, rng *rand.Rand, emit func(interface{})) {
 	c18GenGraphOps(tier, rng, emit)
 	c18GenDot(tier, rng, emit)
 	c18GenExtra(tier, rng, emit)
+	c18GenHist(tier, rng, emit)
 }
 
 func init() { register(&Prop{ID: "C18", Num: 18, Gen: c18Gen, Run: c18Run}) }
